@@ -652,3 +652,134 @@ def c20(run):
     run.unit("usercode", specifications=len(jobs), observations=len(obs), vocabulary=len(toks), scenario_space=voc["scenarios"])
     run.assumptions += ["hostile text is placed inside C string literals and comments of each region (plus a[a[0]]-style code), so that any byte flex or m4 changes is visible to the running program",
                         "token sequences of length <= 2 over the FlexUserCode vocabulary (pairs sampled in the quick tier, exhaustive in the thorough tier)"]
+
+
+@check("C15")
+def c15(run):
+    from . import tlc as T, scanner
+    import concurrent.futures as cf, subprocess
+    fd = build.build_flex()
+    rng = random.Random(run.seed)
+    q = run.tier == "quick"
+    srcs = [s for s in fam(run, profiles=("lit", "sc", "trail", "nul", "ccl"), core=1, rnd=8 if q else 40)][:10 if q else 60]
+    tcfgs = [{"tbl": t} for t in ("", "-Cf", "-CF", "-Cfe", "-C", "-Ca")] + [{"tbl": "", "reject": True}]
+    pairs = []
+    cases_in = units.product_unit(run, fd, srcs, tcfgs, tag="incode", san=True)
+    cases_tf = units.product_unit(run, fd, srcs, [dict(c, tablesfile=True) for c in tcfgs], tag="tfile", san=True)
+    for a, b in zip(cases_in, cases_tf):
+        if a.status == "ok" and b.status == "ok" and b.gen and b.gen.get("tables") and os.path.exists(b.gen["tables"]):
+            b.T = a.T; b.states = a.states
+            pairs.append((a, b))
+    # (1) behaviour after yytables_fload == behaviour with in-code tables (same specification, equal executions)
+    units.trace_unit(run, [x for p in pairs for x in p], rng, per_case=10 if q else 40, tag="loaded", full_cover=30 if q else 200)
+
+    # (2) layout + content of the file, (3) the loader on every truncation / wrong magic / concatenation order
+    def loader(exe, path):
+        p = subprocess.run([exe, "tload", path], stdout=subprocess.PIPE, stderr=subprocess.PIPE, timeout=30,
+                           env=dict(os.environ, ASAN_OPTIONS="detect_leaks=1:exitcode=99"))
+        out = p.stdout.decode().strip()
+        crash = p.returncode != 0 or not out.lstrip("-").isdigit()
+        return (int(out) if not crash else -1), crash, p.stderr.decode(errors="replace")[:300]
+    wd = os.path.join(run.work, "loader"); os.makedirs(wd, exist_ok=True)
+    tlc_cases = []; jobs = []
+    sel = [p for p in pairs if p[1].cfg.get("flavour", "nr") == "nr"]
+    for n, (a, b) in enumerate(sel):
+        data = open(b.gen["tables"], "rb").read()
+        other = open(sel[(n + 1) % len(sel)][1].gen["tables"], "rb").read()
+        variants = [("self", data, "yytables", True)]
+        if n < (4 if q else 20):
+            # a second set with another name before / after ours: found by name in any order
+            renamed = data.replace(b"yytables\0", b"zztables\0") if len(b"yytables") == len(b"zztables") else data
+            variants += [("other-first", renamed + data, "yytables", False), ("other-last", data + renamed, "yytables", False),
+                         ("only-other", renamed, "yytables", False)]
+        for vn, bytes_, name, compare in variants:
+            fpath = os.path.join(wd, "%s-%s.tables" % (b.id, vn)); open(fpath, "wb").write(bytes_)
+            ks = list(range(0, len(bytes_) + 1))
+            if q and len(ks) > 400: ks = sorted(set(rng.sample(ks, 380) + list(range(0, 40)) + [len(bytes_) - i for i in range(0, 20)]))
+            case = dict(bytes=list(bytes_), name=[ord(ch) for ch in name], T=a.T, compare=compare, obs=[], cid=b.id, variant=vn)
+            tlc_cases.append(case)
+            for k in ks:
+                jobs.append((case, b, fpath, bytes_, k, "trunc"))
+            bad = bytearray(bytes_); bad[0] ^= 0xFF
+            jobs.append((case, b, fpath, bytes(bad), len(bad), "magic"))
+    def one(j):
+        case, b, fpath, bytes_, k, kind = j
+        pth = "%s.%s%d" % (fpath, kind, k)
+        open(pth, "wb").write(bytes_[:k])
+        rc, crash, err = loader(b.gen["exe"], pth)
+        os.unlink(pth)
+        return (case, dict(k=k, rc=rc, crash=crash, kind=kind, err=err), bytes_[:k] if kind == "magic" else None)
+    with cf.ThreadPoolExecutor(units.NCPU) as ex:
+        res = list(ex.map(one, jobs))
+    for case, o, alt in res:
+        if o["kind"] == "magic":
+            # a file whose first set has a wrong magic number: separate case (its own byte string)
+            c2 = dict(case, bytes=list(alt), obs=[o], compare=False, variant=case["variant"] + "-badmagic"); tlc_cases.append(c2)
+            c2["skiplayout"] = True
+        else:
+            case["obs"].append(o)
+        run.note_case(dict(c=case["cid"], v=case["variant"], k=o["k"], kind=o["kind"]))
+    path = os.path.join(run.work, "tf.cases.ndjson")
+    remaining = [c for c in tlc_cases]
+    rounds = 0
+    while remaining and rounds < 8:
+        rounds += 1
+        with open(path, "w") as f:
+            for c in remaining:
+                f.write(json.dumps(dict(bytes=c["bytes"], name=c["name"], T=c["T"], compare=c["compare"] and not c.get("skiplayout"),
+                                        layout=(not c.get("skiplayout")) and not c["variant"].startswith("only-other"),
+                                        obs=[dict(k=o["k"], rc=o["rc"], crash=o["crash"]) for o in c["obs"]])) + "\n")
+        r = T.run("FlexTablesFile", cfg="MC_TablesFile.cfg", env={"CASES": path}, workers=1, timeout=1200)
+        run.add_tlc(r)
+        if r.ok: break
+        if not r.violated:
+            run.error("FlexTablesFile failed: %s" % (r.error or "timeout")[:700]); break
+        ci = T.ints(r.last_state.get("c", "1"))[0] - 1; j = T.ints(r.last_state.get("j", "0"))[0]
+        c = remaining[ci]
+        o = c["obs"][j - 1] if j > 0 else {}
+        if c.get("skiplayout") and r.violated == "LayoutOK":
+            c["obs_only"] = True
+        run.violation("tables:" + r.violated, "tables file of %s (%s, variant %s): %s fails%s"
+                      % (c["cid"], " ".join(scanner.flex_args(next(b.cfg for a, b in pairs if b.id == c["cid"]))), c["variant"], r.violated,
+                         (" for the first %d of %d bytes: loader returned %s crash=%s %s" % (o["k"], len(c["bytes"]), o["rc"], o["crash"], o.get("err", "")[:150])) if o else ""),
+                      dict(variant=c["variant"], obs=o), [next(b.gen["l"] for a, b in pairs if b.id == c["cid"])])
+        remaining = remaining[:ci] + remaining[ci + 1:]
+    run.unit("tables-file", files=len(tlc_cases), loader_runs=len(jobs))
+    # (4) --tables-verify succeeds on the genuine file and fails when a serialized value is altered
+    vcases = units.product_unit(run, fd, srcs[:3 if q else 10], [{"tbl": "", "tablesfile": True, "tablesverify": True}, {"tbl": "-Cf", "tablesfile": True, "tablesverify": True}], tag="verify", san=True)
+    nver = 0
+    for c in vcases:
+        if c.status != "ok" or not c.gen.get("tables"): continue
+        data = bytearray(open(c.gen["tables"], "rb").read())
+        rc, crash, err = loader(c.gen["exe"], c.gen["tables"])
+        if rc != 0 or crash:
+            run.violation("verify:genuine", "--tables-verify scanner of %s rejects its own tables file (rc=%s crash=%s %s)" % (c.src.get("name"), rc, crash, err[:200]), {}, [c.gen["l"]])
+        for _ in range(24):
+            k = rng.randrange(16, len(data) - 8)
+            if not _in_table_data(bytes(data), k): continue       # only serialized *values* are altered (not lengths, ids, padding)
+            alt = bytearray(data); alt[k] = (alt[k] + 1 + rng.randrange(200)) % 256
+            if alt == data: continue
+            pth = c.gen["tables"] + ".alt"; open(pth, "wb").write(alt)
+            rc2, crash2, err2 = loader(c.gen["exe"], pth); nver += 1
+            # padding bytes carry no value: only flag an accepted alteration when it lies inside table data that TLC-side parsing sees
+            if rc2 == 0 and not crash2 and _in_table_data(bytes(data), k):
+                run.violation("verify:altered", "--tables-verify scanner of %s accepts a tables file whose byte %d was altered" % (c.src.get("name"), k), {}, [c.gen["l"]])
+            if crash2:
+                run.violation("verify:crash", "--tables-verify scanner of %s crashes on an altered tables file: %s" % (c.src.get("name"), err2[:200]), {}, [c.gen["l"]])
+    run.unit("tables-verify", alterations=nver)
+    run.assumptions += ["release of loaded tables by yytables_destroy is observed by LeakSanitizer on every loader run, not by the FlexHeap ledger"]
+
+
+def _in_table_data(b, k):
+    """is byte offset k inside the data area of some table of the first set (not header, not padding)?"""
+    import struct
+    if len(b) < 16: return False
+    magic, hs, ss = struct.unpack(">III", b[:12])
+    p = hs
+    while p + 12 <= min(ss, len(b)):
+        tid, fl, hi, lo = struct.unpack(">HHII", b[p:p + 12])
+        w = 1 if fl & 1 else 2 if fl & 2 else 4
+        n = (lo if hi == 0 else hi * lo) * (2 if fl & 0x10 else 1)
+        if p + 12 <= k < p + 12 + n * w: return True
+        p = (p + 12 + n * w + 7) // 8 * 8
+    return False
